@@ -280,7 +280,14 @@ pub fn run(ctx: &mut Ctx) {
     root.size = SizeEnc::Width(4);
     let big1 = vec![root];
     let big2 = vec![Node::master(ID_ROOT, vec![Node::leaf(ID_U, Val::U(7)), Node::leaf(ID_B, Val::B(vec![0x77; 70000])), Node::leaf(ID_U, Val::U(8))])];
-    for (i, doc) in [big1, big2].iter().enumerate() {
+    let mut ch3 = Vec::new();
+    for i in 0..22000u64 {
+        ch3.push(Node::leaf(ID_U, Val::U(i % 40000)));
+    }
+    ch3.push(Node::leaf(ID_B, Val::B(vec![0x5d; 200_000])));
+    ch3.push(Node::leaf(ID_U, Val::U(9)));
+    let big3 = vec![Node::master(ID_ROOT, ch3)];
+    for (i, doc) in [big1, big2, big3].iter().enumerate() {
         let (bytes, _) = ref_encode(doc);
         let scheds: Vec<Vec<AStep>> = vec![vec![], vec![AStep::Chunk(65536)], vec![AStep::Chunk(65535), AStep::Chunk(1)], vec![AStep::Chunk(1)], vec![AStep::Pending, AStep::Chunk(70000)], vec![AStep::Chunk(4096); 40]];
         for (j, s) in scheds.iter().enumerate() {
